@@ -18,6 +18,7 @@ EXPLANATION = (
     "cleared before ASE is added. C10.3: P_ase normal form = 10^(NF/10)*h*f0*(10^(G/10)-1)*fs; ASE = sqrt(P_ase/4)*randn(4,N) "
     "combined as rows[:2] + j*rows[2:], added to the noise component only. C10.4: TypeError on non-optical input; BW routes the "
     "whole output through BPF. Not decided: measured ASE power / OSNR numerically.")
+EXPLANATION += (" Wave 14: every return path of EDFA is judged by the same clauses (an early exit for a 'trivial' gain must still clear the y row and carry a noise component).")
 TRUSTED = ["numpy broadcasting and numpy.random.randn independence", "scipy.constants.h", "utils.idb (C19)"]
 
 C_H = Form.atom(("c", "scipy.constants.h"))
